@@ -16,6 +16,15 @@
 //! (`from_arrow(batch.schema().fields(), batch.columns())`, what `from_record_batch` is documented to be) and the arrow
 //! arrays through a slice of REFERENCES (`A = &ArrayRef`: any `AsRef<dyn Array>` is accepted).  The `_impl` re-exports and
 //! `serde_arrow::marrow` are pinned at compile time (`_reexports`).
+//!
+//! The TOP-LEVEL `items` value (`top`): beside the plain sequence every case presents the same rows in one other form a
+//! `Serialize` impl can take (`TOP_FORMS`: sequence without / with a lying length hint, tuple, tuple struct, newtype struct,
+//! newtype variant, tuple variant, `Some(seq)`, unit, map, struct, scalars …) to ALL one-shot entry points, to the
+//! `Serializer` wrapper (borrowed and owned builder) and to `ArrayBuilder::extend` (`top_out`).
+//!
+//! USE AFTER A FAILED OPERATION (`fail_hist`): one builder per finisher, the rows pushed one by one with a record the
+//! builder refuses half way in the middle (`bad`, `bad_at`), a build, another push, another build — the history does not
+//! stop at a failing operation and every outcome is recorded.
 use crate::dedump::Dump;
 use crate::dump::view_to_json;
 use crate::gen_backend::{decorate, grid_leaves, grid_position, sanitize};
@@ -63,14 +72,32 @@ fn _reexports(
     (f, a, b, f2, m)
 }
 
+/// every form the TOP-LEVEL `items` value of `to_marrow` / `to_arrow` / `to_record_batch` / `to_arrow2`, of
+/// `ArrayBuilder::extend` and of the `Serializer` wrapper can take (`suites::hist::wrap`): the collections the strict
+/// `Serializer` accepts, the ones only `OuterSequenceBuilder` (`extend`) accepts, and values that are no collection
+pub const TOP_FORMS: &[&str] = &[
+    "seq_nohint", "seq_lying", "tuple", "tuple_lying", "tuple_struct", "newtype_struct", "newtype_variant", "tuple_variant",
+    "nested", "newtype_variant_tuple_variant", "some", "some_tuple", "some_some", "not:unit", "not:none", "not:unit_struct",
+    "not:map", "not:map1", "not:struct", "not:row", "not:i32", "not:str", "not:bool", "not:bytes", "not:f64", "not:char",
+    "not:unit_variant", "not:struct_variant", "not:some",
+];
+
 pub fn gen(ctx: &Ctx) -> Vec<Value> {
     let mut rng = Rng::new(ctx.seed ^ 0xBAC4_E2D);
     let mut out = Vec::new();
     let mut c = 0usize;
     let mut emit = |r: &mut Rng, sub: u64, schema: Vec<Value>, rows: Vec<Value>, strict: bool| {
         let how = *r.pick(&["extend", "push"]);
+        // choices from a stream of their own (the cases above stay what they were)
+        let mut y = Rng::new(sub ^ 0x70F0_0123);
+        // the top-level form: the grid walks through all of them, the random part picks
+        let top = if c < 728 { TOP_FORMS[c % TOP_FORMS.len()] } else { *y.pick(TOP_FORMS) };
+        // a record the builder refuses half way, to be pushed in the middle of the rows of a history that goes on
+        // afterwards (finding C10-use-after-failed-push); null: the rows as they are (non-strict rows fail on their own)
+        let bad = if y.chance(2, 3) { crate::suites::hist::bad_record(&mut y, &schema) } else { Value::Null };
+        let bad_at = y.usize(rows.len() + 1);
         out.push(json!({"id": format!("backend-{c:06}"), "seed": sub, "schema": schema, "rows": rows, "strict": strict,
-            "how": how, "cross": crossings(r)}));
+            "how": how, "cross": crossings(r), "top": top, "bad": bad, "bad_at": bad_at}));
         c += 1;
     };
     // grid: every leaf type × nullability × position, a handful of representable rows, metadata on the column
@@ -365,6 +392,93 @@ pub fn exec(input: &Value) -> Value {
         cross.push(json!({"from": from, "to": to, "how": how, "first": first, "out": built_out(run, &built), "batch": info}));
     }
 
+    // ---- the TOP-LEVEL value in another form: every one-shot entry point, the Serializer wrapper and `extend`
+    let mut top_out = serde_json::Map::new();
+    if let Some(form) = input.get("top").and_then(|t| t.as_str()) {
+        let v = crate::suites::hist::wrap(form, rows);
+        let (run, arr) = run_keep(|| serde_arrow::to_marrow(&fs.m, &SVal(&v)));
+        top_out.insert("marrow".into(), ser_out(run, arr.as_ref().map(|a| Ok(dump_marrow(a)))));
+        let (run, arr) = match &fs.a {
+            Ok(a) => run_keep(|| serde_arrow::to_arrow(a, &SVal(&v))),
+            Err(_) => (ferr_a.clone().unwrap(), None),
+        };
+        top_out.insert("arrow".into(), ser_out(run, arr.as_ref().map(|a| dump_arrow(a))));
+        let (run, b) = match &fs.a {
+            Ok(a) => run_keep(|| serde_arrow::to_record_batch(a, &SVal(&v))),
+            Err(_) => (ferr_a.clone().unwrap(), None),
+        };
+        top_out.insert("batch".into(), ser_out(run, b.as_ref().map(|b| dump_arrow(b.columns()))));
+        let (run, arr) = match &fs.a2 {
+            Ok(a) => run_keep(|| serde_arrow::to_arrow2(a, &SVal(&v))),
+            Err(_) => (ferr_a2.clone().unwrap(), None),
+        };
+        top_out.insert("arrow2".into(), ser_out(run, arr.as_ref().map(|a| dump_arrow2(a))));
+        // the Serializer wrapper around a borrowed and around an owned builder, `extend`
+        let (run, arr) = run_keep(|| {
+            use serde::Serialize;
+            let mut b = serde_arrow::ArrayBuilder::from_marrow(&fs.m)?;
+            SVal(&v).serialize(serde_arrow::Serializer::new(&mut b))?;
+            b.to_marrow()
+        });
+        top_out.insert("ser".into(), ser_out(run, arr.as_ref().map(|a| Ok(dump_marrow(a)))));
+        let (run, arr) = run_keep(|| {
+            use serde::Serialize;
+            let b = serde_arrow::ArrayBuilder::from_marrow(&fs.m)?;
+            SVal(&v).serialize(serde_arrow::Serializer::new(b))?.into_inner().to_marrow()
+        });
+        top_out.insert("ser_owned".into(), ser_out(run, arr.as_ref().map(|a| Ok(dump_marrow(a)))));
+        let (run, arr) = run_keep(|| {
+            let mut b = serde_arrow::ArrayBuilder::from_marrow(&fs.m)?;
+            b.extend(&SVal(&v))?;
+            b.to_marrow()
+        });
+        top_out.insert("extend".into(), ser_out(run, arr.as_ref().map(|a| Ok(dump_marrow(a)))));
+    }
+
+    // ---- histories that GO ON after a failing operation, through every finisher: the rows pushed one by one with the
+    //      bad record in the middle, a build, the first row again, a second build — every outcome is recorded
+    let mut fail_hist = Vec::new();
+    if input.get("bad_at").is_some() {
+        let bad = &input["bad"];
+        let bad_at = input["bad_at"].as_u64().unwrap_or(0) as usize;
+        let mut adds: Vec<&Value> = rows.iter().collect();
+        if !bad.is_null() {
+            adds.insert(bad_at.min(adds.len()), bad);
+        }
+        for (from, to) in [("marrow", "marrow"), ("arrow", "arrow"), ("arrow", "batch"), ("arrow2", "arrow2")] {
+            let made: Option<serde_arrow::ArrayBuilder> = match from {
+                "marrow" => run_keep(|| serde_arrow::ArrayBuilder::from_marrow(&fs.m)).1,
+                "arrow" => fs.a.as_ref().ok().and_then(|a| run_keep(|| serde_arrow::ArrayBuilder::from_arrow(a)).1),
+                _ => fs.a2.as_ref().ok().and_then(|a| run_keep(|| serde_arrow::ArrayBuilder::from_arrow2(a)).1),
+            };
+            let Some(mut b) = made else {
+                fail_hist.push(json!({"to": to, "outs": Value::Null}));
+                continue;
+            };
+            let mut outs = Vec::new();
+            let finish = |b: &mut serde_arrow::ArrayBuilder| -> Value {
+                let (run, built) = run_keep(|| {
+                    Ok(match to {
+                        "marrow" => Built::M(b.to_marrow()?),
+                        "arrow" => Built::A(b.to_arrow()?),
+                        "batch" => Built::B(b.to_record_batch()?),
+                        _ => Built::A2(b.to_arrow2()?),
+                    })
+                });
+                built_out(run, &built)
+            };
+            for r in &adds {
+                outs.push(outcome::run(|| b.push(&SVal(r)).map(|_| Value::Null)));
+            }
+            outs.push(finish(&mut b));
+            if let Some(r) = rows.first() {
+                outs.push(outcome::run(|| b.push(&SVal(r)).map(|_| Value::Null)));
+            }
+            outs.push(finish(&mut b));
+            fail_hist.push(json!({"to": to, "outs": outs}));
+        }
+    }
+
     // ---- the adapter equations, right-hand sides with the public API only:
     //      to_arrow = to_marrow ; ArrayRef::try_from per array      (likewise arrow2)
     let mut via = serde_json::Map::new();
@@ -495,9 +609,11 @@ pub fn exec(input: &Value) -> Value {
 
     let mut case = input.clone();
     let obj = case.as_object_mut().unwrap();
-    obj.insert("aux".into(), gen_schema::float_strings(&input["rows"]));
+    obj.insert("aux".into(), gen_schema::aux_for(&input["schema"], &json!([input["rows"], input["bad"]])));
     obj.insert("ser".into(), Value::Object(ser));
     obj.insert("cross_out".into(), Value::Array(cross));
+    obj.insert("top_out".into(), Value::Object(top_out));
+    obj.insert("fail_hist".into(), Value::Array(fail_hist));
     obj.insert("via".into(), Value::Object(via));
     obj.insert("conv_cols".into(), Value::Object(conv_cols));
     obj.insert("de".into(), Value::Object(de));
